@@ -85,6 +85,13 @@ def check(prop, tier, replay=None):
             if r['treatedInSync'] and not r['shardRunsCoordinatorConfig']:
                 violations.append(dict(sig=dict(which='in-sync-with-other-configuration', group=group(r['class'])), replay=dict(property=prop, protocol=r),
                                        text='coordinator reloaded an edit of %s; the shard still runs the old configuration but got %s' % (r['path'], r['reqs'])))
+            if r['pushed'] and not r['shardRunsCoordinatorConfig']:
+                violations.append(dict(sig=dict(which='push-does-not-deliver-the-coordinators-configuration'), replay=dict(property=prop, protocol=r),
+                                       text='after the push of an edit of %s the shard does not hold the coordinator\'s content' % r['path']))
+            if r['shardRunsCoordinatorConfig'] and (r['pushedAgain'] or not r['treatedInSync2']):
+                violations.append(dict(sig=dict(which='same-configuration-not-in-sync', extra=r['withExtraConfig']), replay=dict(property=prop, protocol=r),
+                                       text='the shard holds exactly the coordinator\'s configuration (edit of %s%s) and is still treated as out of sync in the next cycle: %s' % (
+                                           r['path'], ', stop reason set before the reload' if r['withExtraConfig'] else '', r['reqs2'])))
         drift = []
         if model_violated != bool(invisible):
             drift.append('ConfigSync.tla with the measured HashView %s InSyncIsTruthful but the measurement found %d invisible edits' % (
